@@ -8,4 +8,8 @@ import SqlModel.Filters.Spaces
 import SqlModel.Filters.Serializer
 import SqlModel.Filters.Output
 import SqlModel.Filters.Stage2
+import SqlModel.Filters.Indent
+import SqlModel.Filters.Reindent
+import SqlModel.Filters.Aligned
+import SqlModel.Filters.Format
 /-! # SqlModel.Filters — the formatting side of sqlparse, stage 2 (token filters, statement filters, serializer, output formats) -/
